@@ -653,7 +653,6 @@ def _syn_reject_class(e, text, entry=None, ts=0, fv=0):
 # (no_location, allow_type_system, experimental_fragment_variables, bytes?)
 ALL_CONFIGS = [(nl, ts, fv, b) for b in (0, 1) for nl in (0, 1) for ts in (0, 1) for fv in (0, 1)]
 DIAG_CONFIGS = [(0, 0, 0, 0), (1, 1, 1, 1)]
-_FACTORS = ("no_location", "allow_type_system", "experimental_fragment_variables", "bytes", "layout")
 
 
 def _only_suffix(failing, configs):
